@@ -12,7 +12,8 @@ RULE = ("function level: every n < 16^3 and every symbol triple over {16 index s
         "[epsilon], missing} (both finite sets enumerated completely, split over the shards), sampled n up to 16^4 + 70 000; "
         "API level: decoder on [C]*k+[RingL]+digits and [S][BranchL]+digits+atoms+[O], decoder with non-index/"
         "missing digit symbols, encoder on rings of span n+2 and branches of length n+1; expected digits come "
-        "from own positional arithmetic over the table of docs/source/derivation.rst. "
+        "from own positional arithmetic over the table of docs/source/derivation.rst; function level also for n = 16^k + {-2,-1,0,1,...}, "
+        "k up to 69 (199 in thorough), in a subprocess under a memory and a time limit (a limit hit is inconclusive). "
         "non-trivial = n >= 16 (more than one digit) or a triple containing a non-index/missing symbol; "
         "distinct = distinct (kind, n | triple)")
 ASSUMPTIONS = ["the documented index table of docs/source/derivation.rst, in modern symbol names",
@@ -85,6 +86,8 @@ def evaluate(case):
         if r != ("ok", want):
             return Result(Fail("fn:triple_value", t=t, want=want, got=r), nt)
         return Result(None, nt, ("fn_triple",), key="t" + repr(t))
+    if kind == "fn_big":
+        return _fn_big(case)
     _set_table()
     if kind == "dec_ring":
         n = case["n"]
@@ -139,6 +142,43 @@ def evaluate(case):
     raise ValueError(kind)
 
 
+def _fn_big(case):
+    """n around powers of 16 far beyond what ring / branch symbols can carry ('for every non-negative integer n'): run in a
+    subprocess under a memory and a time limit; hitting a limit is inconclusive (counted), never a violation"""
+    import json
+    import os
+    import subprocess
+    import sys
+    from vf.core import HERE, REPO, HarnessError
+    if _to_sym is None:
+        return Result(skipped="function-level API not importable")
+    env = dict(os.environ, PYTHONPATH="%s:%s" % (REPO, HERE))
+    try:
+        p = subprocess.run([sys.executable, "-m", "vf.bign"], input=json.dumps(dict(ns=case["ns"])).encode(), stdout=subprocess.PIPE,
+                           stderr=subprocess.PIPE, env=env, timeout=60)
+    except subprocess.TimeoutExpired:
+        return Result(skipped="large n: time limit reached (inconclusive)")
+    if p.returncode != 0:
+        return Result(skipped="large n: subprocess ended with status %d (memory limit?) (inconclusive)" % p.returncode)
+    out = json.loads(p.stdout.decode())
+    if not out["file"].startswith(REPO):
+        raise HarnessError("subprocess imported selfies from " + out["file"])
+    n_ok = 0
+    for ns, syms, back, err in out["results"]:
+        n = int(ns)
+        if err == "MemoryError":
+            return Result(skipped="large n: memory limit reached (inconclusive)", extra=n_ok)
+        if err is not None:
+            return Result(Fail("fn:to_symbols_raised:large_n", n=ns, error=err), True, extra=n_ok)
+        want = digits(n)
+        if syms != want:
+            return Result(Fail("fn:digits:large_n", n=ns, want_len=len(want), got_len=len(syms), want_head=want[:4], got_head=syms[:4]), True, extra=n_ok)
+        if back != ns:
+            return Result(Fail("fn:roundtrip:large_n", n=ns, got=back), True, extra=n_ok)
+        n_ok += 1
+    return Result(None, True, ("fn_big",), key="big" + case["ns"][0], extra=n_ok)
+
+
 def _dec_ring(s, k, n, nt, cls, key):
     r = call(sf.decoder, s, expected=(sf.DecoderError,))
     if r[0] != "ok":
@@ -179,6 +219,16 @@ def shard(ctx):
         ctx.acc.exhaustive["fn_triple"] = "all 21^3 + 21^2 symbol triples/pairs over 16 index symbols + 4 others + missing"
     else:
         ctx.acc.notes["function_level_skipped_not_importable"] += 1
+
+    # very large n around powers of 16 (one subprocess per shard)
+    ks = [k_ for k_ in range(4, 70 if ctx.tier == "quick" else 200) if k_ % K == k]
+    if ks:
+        big = []
+        for k_ in ks:
+            for d in (-2, -1, 0, 1, 16 ** (k_ - 1), -(16 ** (k_ - 1)) - 1):
+                big.append(str(16 ** k_ + d))
+            big.append(str(16 ** k_ * 7 + 5 * 16 ** (k_ // 2)))
+        ctx.check(dict(kind="fn_big", ns=big))
 
     # API level
     if ctx.tier == "quick":
